@@ -9,6 +9,7 @@ import (
 	"github.com/freeconf/yang/meta"
 	"github.com/freeconf/yang/node"
 	"github.com/freeconf/yang/nodeutil"
+	"github.com/freeconf/yang/val"
 	"verif/internal/model"
 	"verif/internal/store"
 )
@@ -203,4 +204,12 @@ func sourceNode(kind string, m *meta.Module, ep entryPoint, s *model.Tree) (node
 		return nodeutil.ReadJSON(s.ToJSON(ep.defs(m)))
 	}
 	panic("unknown source kind " + kind)
+}
+
+func keyCanon(k []val.Value) string {
+	var parts []string
+	for _, v := range k {
+		parts = append(parts, model.CanonVal(v))
+	}
+	return strings.Join(parts, "|")
 }
